@@ -46,7 +46,9 @@ fn walk(h: &Hir, t: &mut Tape, out: &mut String, depth: usize) -> bool {
             }
             else {
                 let (a, b) = t.pick(&ranges);
-                out.push(if t.chance(128) { b } else { a });
+                let c = if t.chance(128) { b } else { a };
+                // no NUL in candidate paths
+                out.push(if c == '\0' { '\u{1}' } else { c });
             }
             true
         },
